@@ -509,8 +509,8 @@ structure Lawful {M : Type} [Monoid M] (f : Cmd → M) where
   /-- the meaning does not depend on the identity of the `Command` object -/
   f_id : ∀ (c : Cmd) (i : Nat), f { c with id := i } = f c
   /-- a gate is its family at the first parameter, negated when `dagger` is set -/
-  gate_f : ∀ (c : Cmd) (p : Par) (t : List Par), ruleOf c.cls = .gate → c.pars = p :: t →
-    f c = G c.cls c.regs t (sg c.dagger * p.val θ)
+  gate_f : ∀ (c : Cmd) (p : Par) (t : List Par), ruleOf c.cls = .gate → c.cls ∉ knownUnlawful →
+    c.pars = p :: t → f c = G c.cls c.regs t (sg c.dagger * p.val θ)
   gate_add : ∀ k r t x y, G k r t (x + y) = G k r t x * G k r t y
   gate_zero : ∀ k r t, G k r t 0 = 1
   chan_f : ∀ (c : Cmd) (x : Rat) (t : List Par), ruleOf c.cls = .channel → c.pars = .num x :: t →
@@ -540,7 +540,7 @@ def MergeSound (f : Cmd → M) (a b : Cmd) (r : MergeRes) : Prop :=
   (∀ op, r = .merged op → op.deps = [] ∧ ∀ i, f a * f b = f { op with id := i, regs := a.regs })
 
 theorem gateMerge_sound (L : Lawful f) (a b : Cmd) (hr : a.regs = b.regs) (hda : a.deps = [])
-    (hrule : ruleOf a.cls = .gate) : MergeSound f a b (gateMerge a b) := by
+    (hrule : ruleOf a.cls = .gate) (hK : a.cls ∉ knownUnlawful) : MergeSound f a b (gateMerge a b) := by
   unfold gateMerge
   split
   · exact ⟨by simp, by simp⟩
@@ -551,8 +551,8 @@ theorem gateMerge_sound (L : Lawful f) (a b : Cmd) (hr : a.regs = b.regs) (hda :
       split
       · rename_i htt
         subst htt
-        have hfa := L.gate_f a pa ta hrule hpa
-        have hfb := L.gate_f b pb ta (hcls ▸ hrule) hpb
+        have hfa := L.gate_f a pa ta hrule hK hpa
+        have hfb := L.gate_f b pb ta (hcls ▸ hrule) (hcls ▸ hK) hpb
         rw [← hcls, ← hr] at hfb
         split
         · rename_i p0 hadd
@@ -568,7 +568,7 @@ theorem gateMerge_sound (L : Lawful f) (a b : Cmd) (hr : a.regs = b.regs) (hda :
             simp only [MergeRes.merged.injEq] at hop
             subst hop
             refine ⟨hda, fun i => ?_⟩
-            rw [L.gate_f { a with pars := p0 :: ta, id := i, regs := a.regs } p0 ta hrule rfl]
+            rw [L.gate_f { a with pars := p0 :: ta, id := i, regs := a.regs } p0 ta hrule hK rfl]
             rw [hfa, hfb, ← L.gate_add, ← hs]
         · exact ⟨by simp, by simp⟩
       · exact ⟨by simp, by simp⟩
@@ -666,10 +666,10 @@ theorem fourierMerge_sound (L : Lawful f) (a b : Cmd) (hr : a.regs = b.regs)
 
 /-- every merge rule is sound for a lawful interpretation -/
 theorem opMerge_sound (L : Lawful f) (a b : Cmd) (hr : a.regs = b.regs) (hda : a.deps = [])
-    (hdb : b.deps = []) : MergeSound f a b (opMerge a b) := by
+    (hdb : b.deps = []) (hK : a.cls ∉ knownUnlawful) : MergeSound f a b (opMerge a b) := by
   unfold opMerge
   cases hrule : ruleOf a.cls with
-  | gate => exact gateMerge_sound L a b hr hda hrule
+  | gate => exact gateMerge_sound L a b hr hda hrule hK
   | channel => exact channelMerge_sound L a b hr hda hrule
   | matrix => exact matrixMerge_sound L a b hr hda hrule
   | prep => exact prepMerge_sound L a b hr hda hdb hrule
@@ -679,6 +679,15 @@ theorem opMerge_sound (L : Lawful f) (a b : Cmd) (hr : a.regs = b.regs) (hda : a
 /-- well-formedness of a command: an operation with `ns = 1` has exactly one target (enforced by
 `Operation.__or__`), and every command touches at least one subsystem -/
 def WFc (c : Cmd) : Prop := (nsOf c = some 1 → c.regs.length = 1) ∧ c.wires ≠ []
+
+instance (c : Cmd) : Decidable (WFc c) := by unfold WFc; exact inferInstance
+
+/-- the classes with an unlawful inherited rule are out of reach of the optimiser: `ns ≠ 1` -/
+theorem ns1_not_knownUnlawful {c : Cmd} (h : nsOf c = some 1) : c.cls ∉ knownUnlawful := by
+  intro hmem
+  simp only [knownUnlawful, List.mem_singleton] at hmem
+  have e : classInfo "MZgate" = some (.gate, .fixed 2) := by decide
+  simp [nsOf, hmem, e] at h
 
 theorem single_wire {c : Cmd} (hP : WFc c) (hns : nsOf c = some 1) (hd : c.deps = []) :
     ∃ w, c.regs = [w] ∧ c.wires = [w] := by
@@ -705,7 +714,7 @@ theorem tryMerge_ok (L : Lawful f) (B : Nat) : TryOK f WFc (tryMerge B) := by
         have : w' = w := by
           have := h1.2; rw [hrw, hrw'] at this; simpa using this.symm
         subst this
-        refine ⟨w', hrw, hww, hww', opMerge_sound L a b h1.2 hda hdb, ?_⟩
+        refine ⟨w', hrw, hww, hww', opMerge_sound L a b h1.2 hda hdb (ns1_not_knownUnlawful hns), ?_⟩
         cases hm : opMerge a b with
         | fail => rw [hm] at hs; exact absurd hs.symm hne
         | identity => rw [hm] at hs; exact Or.inl ⟨hs.symm, rfl⟩
@@ -734,4 +743,47 @@ theorem tryMerge_ok (L : Lawful f) (B : Nat) : TryOK f WFc (tryMerge B) := by
       · rw [hs]; exact hf _
 
 end LawfulProofs
+end SFV
+
+/-! ### the executable output checker, identities of new commands -/
+namespace SFV
+
+theorem gridRow_of_not_mem_allWires {l : List Cmd} {w : Nat} (h : w ∉ allWires l) : gridRow l w = [] :=
+  gridRow_eq_nil (fun c hc hw => h (by
+    unfold allWires
+    rw [mem_sortDedup, List.mem_flatMap]
+    exact ⟨c, hc, hw⟩))
+
+theorem optRow_nil (B : Nat) : optRow B [] = [] := by
+  simp [optRow, optLoop_nil]
+
+theorem isOptOutput_sound {B : Nat} {l out : List Cmd} (h : isOptOutput B l out = true) :
+    (∀ c ∈ out, c.wires ≠ []) ∧ ∀ w, gridRow out w = optRow B (gridRow l w) := by
+  unfold isOptOutput at h
+  simp only [Bool.and_eq_true, List.all_eq_true, beq_iff_eq] at h
+  obtain ⟨h1, h2⟩ := h
+  constructor
+  · intro c hc hw
+    have := h1 c hc
+    simp [hw] at this
+  · intro w
+    by_cases hw : w ∈ allWires l ++ allWires out
+    · exact h2 w hw
+    · have hw' : w ∉ allWires l ∧ w ∉ allWires out := by
+        simpa [List.mem_append, not_or] using hw
+      rw [gridRow_of_not_mem_allWires hw'.1, gridRow_of_not_mem_allWires hw'.2, optRow_nil]
+
+theorem tryMerge_new_id {B : Nat} {a b m : Cmd} (h : tryMerge B a b = .merged m) : B ≤ m.id := by
+  unfold tryMerge at h
+  split at h
+  · split at h
+    · cases h
+    · split at h
+      · cases h
+      · cases h
+      · simp only [Step.merged.injEq] at h
+        subst h
+        simp
+  · cases h
+
 end SFV
